@@ -8,7 +8,7 @@ from ..model import Repo, ClassInfo, FunctionInfo, AnalysisError, walk_no_nested
     self_attrs_in, call_name, dotted, const_str
 from ..core import Ob, Rule, Mutant, mutate_module, find_def, replace_node
 from ..dataflow import Defs
-from ..astq import MiniEval, Unsupported, MISSING, flatten, norm, inline_locals, return_exprs, strip_docstring
+from ..astq import MiniEval, Unsupported, MISSING, flatten, norm, inline_locals, return_exprs, strip_docstring, run_all_choices
 from ..cfg import cfg_of
 
 EXPR_WORDS = ("Expr", "Symbol", "Number")
@@ -360,11 +360,14 @@ def _tabulate(cls: ClassInfo, m: FunctionInfo, children: List[str], domain, call
                     return env[e.func.value.attr]
             return MISSING
 
-        ev = MiniEval(cb)
         try:
-            rows[vals] = ev.run(strip_docstring(m.node.body))
+            outs = run_all_choices(lambda ch, cb=cb: MiniEval(cb, ch), strip_docstring(m.node.body))
         except Unsupported as u:
             raise AnalysisError(f"D1: cannot tabulate {m.key}: {u}")
+        # all explored paths (outcomes of tests the evaluator cannot decide) must agree with the table;
+        # report the first deviating value if any, else the common value
+        vals_out = [r for _, r in outs]
+        rows[vals] = vals_out
     return rows
 
 
@@ -384,14 +387,18 @@ def rule_d1(repo: Repo) -> List[Ob]:
             raise AnalysisError(f"D1: {cname} lacks evaluate/to_arithm")
         ev_rows = _tabulate(cls, ev_m, children, (False, True), "evaluate")
         ar_rows = _tabulate(cls, ar_m, children, (0, 1), "to_arithm")
-        for vals, r in sorted(ev_rows.items()):
+        for vals, rs in sorted(ev_rows.items()):
             want = bool(sem(*vals))
-            ok = isinstance(r, (bool, int)) and bool(r) == want
+            badr = [x for x in rs if not (isinstance(x, (bool, int)) and bool(x) == want)]
+            r = badr[0] if badr else rs[0]
+            ok = not badr
             obs.append(Ob("D1-truthtable", f"{cls.relpath}::{cname}.evaluate::{vals}", cls.relpath, ev_m.node.lineno, ev_m.qualname, ok,
                           f"{cname}.evaluate{vals} = {r!r}, boolean meaning of {cname} is {want}", witness=f"row {vals}"))
-        for vals, r in sorted(ar_rows.items()):
+        for vals, rs in sorted(ar_rows.items()):
             want = int(bool(sem(*[bool(v) for v in vals])))
-            ok = (not isinstance(r, bool) or True) and r == want
+            badr = [x for x in rs if x != want]
+            r = badr[0] if badr else rs[0]
+            ok = not badr
             obs.append(Ob("D1-truthtable", f"{cls.relpath}::{cname}.to_arithm::{vals}", cls.relpath, ar_m.node.lineno, ar_m.qualname, ok,
                           f"{cname}.to_arithm{vals} = {r!r}, indicator of the boolean meaning is {want}", witness=f"row {vals}"))
     # the parser maps the source operators to these classes
